@@ -83,7 +83,11 @@ func parseCaddyfileOCSPConfig(d *caddyfile.Dispenser) (*config.OCSPConfig, error
 			if !d.NextArg() {
 				return nil, d.ArgErr()
 			}
-			ocspConfig.OCSPAIAStrict = false
+			b, err := strconv.ParseBool(d.Val())
+			if err != nil {
+				return nil, d.ArgErr()
+			}
+			ocspConfig.OCSPAIAStrict = b
 		default:
 			return nil, d.Errf("unknown subdirective for the ocsp config in the revocation verifier: %s", d.Val())
 		}
@@ -175,6 +179,8 @@ func parseCaddyfileCRLCDPConfig(d *caddyfile.Dispenser) (*config.CDPConfig, erro
 				return nil, d.ArgErr()
 			}
 			cdpConfig.CRLCDPStrict = b
+		default:
+			return nil, d.Errf("unknown subdirective for the cdp config in the revocation verifier: %s", d.Val())
 		}
 	}
 	return &cdpConfig, nil
